@@ -113,7 +113,7 @@ func TestVerifC07(t *testing.T) {
 					// statuses (addresses) from the latest graph and the LAST apply outcome
 					kind = "ngf-service"
 					svc := &apiv1.Service{ObjectMeta: metav1.ObjectMeta{Namespace: vpPodNS, Name: "nginx-gateway", Generation: int64(k + 1)},
-						Spec: apiv1.ServiceSpec{Type: apiv1.ServiceTypeLoadBalancer, Ports: []apiv1.ServicePort{{Port: 80}}},
+						Spec:   apiv1.ServiceSpec{Type: apiv1.ServiceTypeLoadBalancer, Ports: []apiv1.ServicePort{{Port: 80}}},
 						Status: apiv1.ServiceStatus{LoadBalancer: apiv1.LoadBalancerStatus{Ingress: []apiv1.LoadBalancerIngress{{IP: "192.0.2." + strconv.Itoa(1+r.Intn(200))}}}}}
 					if r.Chance(1, 4) {
 						kind = "ngf-service-delete"
